@@ -96,7 +96,7 @@ func collectSites(p *gen.Program) *c24Sites {
 	return s
 }
 
-var c24Mutations = []string{"undeclared-metric", "undefined-capref", "capref-outside-its-block", "undefined-decorator", "next-outside-decorator", "wrong-key-count", "redeclared-name", "redeclared-name-other-kind", "unused-declaration", "invalid-regex", "regex-too-long", "int-division-by-literal-zero"}
+var c24Mutations = []string{"undeclared-metric", "undefined-capref", "capref-outside-its-block", "undefined-decorator", "next-outside-decorator", "wrong-key-count", "redeclared-name", "redeclared-name-other-kind", "unused-declaration", "unused-declaration-in-block", "invalid-regex", "regex-too-long", "int-division-by-literal-zero"}
 
 // mutate applies one defect-introducing mutation in place; ok=false if the
 // program has no eligible site.
@@ -451,12 +451,47 @@ func TestC24(t *testing.T) {
 				rt.Skip("base program rejected")
 			}
 			kind := rapid.SampledFrom(c24Mutations).Draw(rt, "mutation")
-			ctx, ok := c24Mutate(rt, g.P, kind)
+			var ctx string
+			var ok bool
+			src := ""
+			if kind == "unused-declaration-in-block" {
+				// a declaration nothing uses, placed INSIDE a block (decorator
+				// definition, condition block, else block): inserted in the text,
+				// as G declares metrics at the top only
+				lines := strings.Split(g.P.Source(), "\n")
+				var sites []int
+				for i, l := range lines {
+					if strings.HasSuffix(l, "{") {
+						sites = append(sites, i)
+					}
+				}
+				if len(sites) > 0 {
+					at := sites[rapid.IntRange(0, len(sites)-1).Draw(rt, "blocksite")]
+					decl := rapid.SampledFrom([]string{"counter unused_zz", "hidden gauge unused_zz", "const UNUSED_ZZ /zz+/", "counter unused_zz by k"}).Draw(rt, "udecl")
+					head := strings.TrimSpace(lines[at])
+					switch {
+					case strings.HasPrefix(head, "def "):
+						ctx = "decorator-definition"
+					case strings.Contains(head, "else"):
+						ctx = "else-block"
+					case strings.HasPrefix(head, "@"):
+						ctx = "decorated-block"
+					default:
+						ctx = "nested-block"
+					}
+					ind := lines[at][:len(lines[at])-len(strings.TrimLeft(lines[at], " "))] + "  "
+					lines = append(lines[:at+1], append([]string{ind + decl}, lines[at+1:]...)...)
+					src, ok = strings.Join(lines, "\n"), true
+				}
+			} else {
+				ctx, ok = c24Mutate(rt, g.P, kind)
+				src = g.P.Source()
+			}
 			if !ok {
 				st.Class("no-site:" + kind)
 				rt.Skip("no eligible site")
 			}
-			c = c24Case{Src: vstat.Q(g.P.Source()), Mutation: kind, Context: ctx}
+			c = c24Case{Src: vstat.Q(src), Mutation: kind, Context: ctx}
 			st.Eval()
 			st.Class("mutation:" + kind)
 			st.Class("context:" + ctx)
